@@ -162,6 +162,22 @@ theorem step_refines (kind : Kind) (h : Nat → Nat) (s : State) (op : Op) (hs :
     have := (hs.get t).setValue k v
     simp only [step, Spec.step, hav, Bool.not_true, Bool.false_eq_true, if_false, Option.map_some, abs_set, abs_get, this.2]
     refine ⟨by first | trivial | rfl, fun s' o e => by cases e; exact hs.set t this.1⟩
+  | assignSelf t =>
+    simp only [step, Spec.step, hav, Bool.not_true, Bool.false_eq_true, if_false, Option.map_some]
+    refine ⟨by first | trivial | rfl, fun s' o e => by cases e; exact hs⟩
+  | swapSelf t =>
+    simp only [step, Spec.step, hav, Bool.not_true, Bool.false_eq_true, if_false, Option.map_some]
+    refine ⟨by first | trivial | rfl, fun s' o e => by cases e; exact hs⟩
+  | appendSelf t =>
+    have := (hs.get t).appendAll kind (s.get t).items (s.get t).order
+    simp only [step, Spec.step, hav, Bool.not_true, Bool.false_eq_true, if_false, Option.map_some, abs_set, abs_get,
+      this.2, ← Table.iterate_eq]
+    refine ⟨by first | trivial | rfl, fun s' o e => by cases e; exact hs.set t this.1⟩
+  | removeSelf t =>
+    have := (hs.get t).removeAll (s.get t).items (s.get t).order
+    simp only [step, Spec.step, hav, Bool.not_true, Bool.false_eq_true, if_false, Option.map_some, abs_set, abs_get,
+      this.2, ← Table.iterate_eq]
+    refine ⟨by first | trivial | rfl, fun s' o e => by cases e; exact hs.set t this.1⟩
   | find t k =>
     simp only [step, Spec.step, hav, Bool.not_true, Bool.false_eq_true, if_false, Option.map_some, abs_get,
       (hs.get t).lookup_iterate k, Option.map_map, Function.comp_def]
